@@ -185,6 +185,7 @@ class C01(Prop):
         "C17-code-default-unquoted": {"SyntaxError", "ValueError", "TypeError"},
         "C17-D5-dot-in-value": {"SyntaxError", "ValueError"},
         "C17-D9-prose-mentions-defaults": {"SyntaxError", "ValueError"},
+        "AST-non-string-default-under-a-str-mentioning-type": {"AttributeError"},
     }
 
     def classify(self, c, fl):
@@ -203,6 +204,12 @@ class C01(Prop):
         if fl.get("diffs") is None:
             return ex[0][0]
         return covered_by(ex, fl["diffs"])
+
+
+def _mentions_str(typ):
+    from ..astkinds import _mentions_str as m
+
+    return m(typ)
 
 
 def _is_code(v):
@@ -233,6 +240,8 @@ def classify_ir(ir, style, emit_dd, kinds=("rest", "numpydoc", "google")):
         return "C01-entry-without-prose"
     for n, p in entries:
         d = p.get("default")
+        if d is not None and emit_dd and d["t"] in ("int", "float", "bool") and _mentions_str(p.get("typ")):
+            return "AST-non-string-default-under-a-str-mentioning-type"
         if d is not None and emit_dd:
             if _is_code(d):
                 return "C17-code-default-unquoted"
@@ -269,6 +278,8 @@ def explain_ir(ir, style, emit_dd):
         out.append(("C01-entry-without-prose", None if loose else {n: ALL for n, p in entries if "doc" not in p}, STRUCT if loose else ({"lost"} | ({"order", "style"} if bare else set()))))
     for n, p in entries:
         d = p.get("default")
+        if d is not None and emit_dd and d["t"] in ("int", "float", "bool") and _mentions_str(p.get("typ")):
+            out.append(("AST-non-string-default-under-a-str-mentioning-type", {n: ALL}, set()))
         if d is not None and emit_dd:
             if _is_code(d):
                 out.append(("C17-code-default-unquoted", {n: ALL}, set()))
